@@ -178,6 +178,10 @@ class Server(utils.EventEmitter):
 
             channel.sink = on_pdu
 
+            # The state kept for this bearer (subscriptions, pending confirmation) goes
+            # away with the channel
+            channel.once(channel.EVENT_CLOSE, lambda: self.on_disconnection(channel))
+
         return self.device.create_l2cap_server(
             spec or l2cap.LeCreditBasedChannelSpec(psm=att.EATT_PSM), handler=on_channel
         )
